@@ -1,23 +1,32 @@
 #!/bin/bash
-# Prebuilds the Miri sysroot and the Miri test binaries of /verif/san so that the first
-# `./check C28 quick` is not slow. Called by /verif/setup.sh. Failure here only makes the
-# sanitizer legs report "inconclusive".
+# Prebuilds the Miri sysroot and the Miri binaries of /verif/san so that the first `./check C28 quick` is not
+# slow. Called by /verif/setup.sh. Build-only: every bin is started with the argument `none` and returns at
+# once. Bounded: san28 (the only quick-tier leg) first, then the thorough-only packages while the total stays
+# under ~10 minutes. A failure / timeout here only makes the corresponding leg build lazily or report
+# "inconclusive"; it never fails the setup of the native checks.
 set -u
 cd "$(dirname "$0")"
 export CARGO_NET_OFFLINE=true
 unset RUSTFLAGS CARGO_ENCODED_RUSTFLAGS
+BUDGET=${VERIF_SAN_SETUP_BUDGET_S:-600}
+START=$(date +%s)
 if ! cargo +nightly miri --version >/dev/null 2>&1; then
-  echo "san/setup: cargo +nightly miri not available"; exit 1
+  echo "san/setup: cargo +nightly miri not available (legs will be inconclusive)"; exit 0
 fi
-cargo +nightly miri setup >/dev/null 2>&1 || true
-rc=0
-for pkg in $(ls -d san*/ 2>/dev/null | tr -d /); do
-  if [ -f "$pkg/Cargo.toml" ]; then
-    echo "san/setup: building $pkg under Miri"
-    flags=""
-    # san35 is built with the AVX features lance-linalg's SIMD wrappers assume (see legs/leg.py)
-    [ "$pkg" = "san35" ] && flags="-C target-feature=+avx,+avx2,+fma"
-    RUSTFLAGS="$flags" MIRIFLAGS="-Zmiri-disable-isolation -Zmiri-ignore-leaks" timeout 3600 cargo +nightly miri run -q -p "$pkg" -- 0 0 1 quick none 2>&1 | tail -2 || rc=1
+timeout 300 cargo +nightly miri setup >/dev/null 2>&1 || true
+for pkg in san28 san40 san27 san26 san35; do
+  [ -f "$pkg/Cargo.toml" ] || continue
+  left=$(( BUDGET - ( $(date +%s) - START ) ))
+  if [ "$left" -lt 30 ]; then echo "san/setup: budget used up before $pkg (it will build on first use)"; continue; fi
+  flags=""
+  # san35 is built with the AVX features lance-linalg's SIMD wrappers assume (see legs/leg.py)
+  [ "$pkg" = "san35" ] && flags="-C target-feature=+avx,+avx2,+fma"
+  t0=$(date +%s)
+  if RUSTFLAGS="$flags" MIRIFLAGS="-Zmiri-disable-isolation -Zmiri-ignore-leaks" timeout "$left" cargo +nightly miri run -q -p "$pkg" -- 0 0 1 quick none >/dev/null 2>&1; then
+    echo "san/setup: $pkg built in $(( $(date +%s) - t0 )) s"
+  else
+    echo "san/setup: $pkg not built (timeout or error after $(( $(date +%s) - t0 )) s); its leg builds lazily / reports inconclusive"
   fi
 done
-exit $rc
+echo "san/setup: total $(( $(date +%s) - START )) s"
+exit 0
